@@ -9,9 +9,9 @@ CONDS = [
     Cond('laws_ok', "'A, B' = A u B; :is(A, B) = :is(A) u :is(B) (= 'A, B' without default namespace); :not(A) = * \\ :is(A); "
          ":not(A, B) = * \\ :is(A, B); :where/:matches == :is; A subset of 'A, B'; X:is(A) = X n :is(A)",
          'A, B from a pool of ~130 alternatives (every pseudo-class of the live tables, HTML-only and state '
-         'pseudo-classes, namespaced types, custom aliases, :dir/:defined) -> ~17000 pairs, 60 (quick) / 4000 (thorough) '
-         'pairs per part (x 14/16 parts): first the 476 fixed pairs (HTML-only pseudo-class x namespace/iframe/custom-sensitive '
-         'alternative, both orders), then VERIF_SEED-scrambled pairs; laws also with an explicit *|* subject; 3 namespace maps (none, prefixes, default); '
+         'pseudo-classes, namespaced types, custom aliases, :dir/:defined) -> ~17000 pairs, 80 (quick) / 4000 (thorough) '
+         'pairs per part (x 14/16 parts): first the 644 fixed pairs (HTML-only pseudo-class x namespace/iframe/custom-sensitive '
+         'alternative; plain alternative x never-matching pseudo-class; both orders), then VERIF_SEED-scrambled pairs; laws also with an explicit *|* subject; 3 namespace maps (none, prefixes, default); '
          '10 documents (HTML by html.parser / html5lib, XHTML, XML, several top-level nodes, iframe, inline SVG via '
          'lxml-xml and html5lib)', timeout={'quick': 110, 'thorough': 900}, parts={'quick': 14, 'thorough': 16}),
 ]
